@@ -8,7 +8,7 @@ use tracing::{Event, Metadata, Subscriber};
 pub struct Sink;
 thread_local! { static LOG_ON: std::cell::Cell<Option<bool>> = const { std::cell::Cell::new(None) }; }
 static DEFAULT_ON: std::sync::atomic::AtomicBool = std::sync::atomic::AtomicBool::new(true);
-/// per-thread switch: the quick tier of C01 listens on every third slice of its largest families only
+/// per-thread switch: the quick tier of C01 listens on every fifth slice of its largest families only
 pub fn listen(on: bool) {
     LOG_ON.with(|l| l.set(Some(on)));
 }
